@@ -352,6 +352,192 @@ theorem C07_value_reparse (env : Env) (he : EnvOk env) (r : RuleData) (f opc : N
   obtain ⟨hw, _⟩ := mapTriple h
   rw [C07_num_print_parse v (parseNum_lt hw)]; rfl
 
+/-! ### the printed `-F` token re-parses -/
+
+theorem filterOps_eq : filterOps = [[60, 61], [62, 61], [38, 61], [61], [33, 61], [60], [62], [38]] := by decide
+
+theorem takeWhile_append_stop' {p : Nat → Bool} (a : Bytes) (c : Nat) (t : Bytes) (ha : ∀ b ∈ a, p b = true)
+    (hc : p c = false) : (a ++ c :: t).takeWhile p = a := by
+  induction a with
+  | nil => simp [List.takeWhile_cons, hc]
+  | cons x xs ih =>
+    simp only [List.cons_append, List.takeWhile_cons, ha x (by simp), if_true]
+    rw [ih (fun b hb => ha b (by simp [hb]))]
+
+/-- a printed `-F` token `lhs ++ op ++ rhs` — field name of word characters, one of the eight
+operators, a value that is not empty and does not start with '=' — is split by the -F expression
+into exactly those three parts (the value may contain anything after its first byte). -/
+theorem C07_filter_token_reparse (lhs op : Bytes) (c : Nat) (tl : Bytes)
+    (hl : lhs ≠ []) (hw : ∀ b ∈ lhs, isReWord b = true) (hop : op ∈ filterOps) (hc : c ≠ 61) :
+    matchFilter (lhs ++ op ++ c :: tl) = some (lhs, op, c :: tl) := by
+  rw [filterOps_eq] at hop
+  -- every operator starts with a byte that is neither a word character nor white space
+  obtain ⟨o, otl, rfl, ho1, ho2⟩ : ∃ o otl, op = o :: otl ∧ isReWord o = false ∧ isReSpace o = false := by
+    simp only [List.mem_cons, List.mem_nil_iff, or_false] at hop
+    rcases hop with rfl | rfl | rfl | rfl | rfl | rfl | rfl | rfl <;> exact ⟨_, _, rfl, by decide, by decide⟩
+  have e0 : lhs ++ (o :: otl) ++ c :: tl = lhs ++ o :: (otl ++ c :: tl) := by simp
+  have htw : (lhs ++ (o :: otl) ++ c :: tl).takeWhile isReWord = lhs := by
+    rw [e0]; exact takeWhile_append_stop' lhs o _ hw ho1
+  unfold matchFilter
+  simp only [htw]
+  have hne : lhs.isEmpty = false := by cases lhs with | nil => exact absurd rfl hl | cons _ _ => rfl
+  simp only [hne, Bool.false_eq_true, if_false]
+  have hd : (lhs ++ (o :: otl) ++ c :: tl).drop lhs.length = o :: (otl ++ c :: tl) := by
+    rw [e0, List.drop_left' rfl]
+  rw [hd]
+  have hdw : (o :: (otl ++ c :: tl)).dropWhile isReSpace = o :: (otl ++ c :: tl) := by
+    simp [List.dropWhile_cons, ho2]
+  rw [hdw, filterOps_eq]
+  have hc' : (c == 61) = false := by simpa using hc
+  have hc'' : ((61 : Nat) == c) = false := by simp; omega
+  simp only [List.mem_cons, List.mem_nil_iff, or_false] at hop
+  rcases hop with h | h | h | h | h | h | h | h <;>
+    (obtain ⟨rfl, rfl⟩ := List.cons.inj h
+     simp [hasPrefix, List.find?_cons, List.isPrefixOf, hc', hc''])
+
+theorem lookupB_of_mem_nodup {l : List (Bytes × Nat)} (hnd : (l.map (·.1)).Nodup) {k : Bytes} {v : Nat}
+    (h : (k, v) ∈ l) : lookupB l k = some v := by
+  induction l with
+  | nil => cases h
+  | cons p ps ih =>
+    simp only [List.map_cons, List.nodup_cons] at hnd
+    unfold lookupB
+    simp only [List.find?_cons]
+    rcases List.mem_cons.mp h with rfl | h'
+    · simp
+    · have hne : (p.1 == k) = false := by
+        simp only [beq_eq_false_iff_ne, ne_eq]
+        intro heq
+        exact hnd.1 (List.mem_map.mpr ⟨(k, v), h', heq.symm⟩)
+      simp only [hne]
+      exact ih hnd.2 h'
+
+theorem lookupB_of_revLookup {l : List (Bytes × Nat)} (hnd : (l.map (·.1)).Nodup) {k : Bytes} {v : Nat}
+    (h : revLookup l v = some k) : lookupB l k = some v := by
+  unfold revLookup at h
+  cases hf : l.find? (fun p => p.2 == v) with
+  | none => rw [hf] at h; simp at h
+  | some p =>
+    rw [hf] at h
+    simp only [Option.map_some, Option.some.injEq] at h
+    have hp := List.find?_some hf
+    have hv : p.2 = v := by simpa using hp
+    exact lookupB_of_mem_nodup hnd (by rw [← h, ← hv]; exact List.mem_of_find?_eq_some hf)
+
+/-- the printed value of a numeric filter is not empty and does not start with '=' -/
+theorem fieldRhs_head (f v : Nat) (hperm : f = LA.Gen.RuleTables.permField → 0 < v ∧ v < 16) :
+    ∃ c tl, fieldRhs f v = c :: tl ∧ c ≠ 61 := by
+  have hdec : ∀ n, ∃ c tl, dec n = c :: tl ∧ c ≠ 61 := by
+    intro n
+    obtain ⟨d, tl, hd, h1, h2⟩ := dec_cons_digit n
+    exact ⟨d, tl, hd, by omega⟩
+  unfold fieldRhs
+  split
+  · -- exit
+    unfold exitString
+    simp only
+    generalize (if v ≥ 2147483648 then (v : Int) - 4294967296 else (v : Int)) = code
+    cases (if code ≤ 0 then Tables.errnoName (-code).toNat else none) with
+    | some name => exact ⟨45, _, rfl, by decide⟩
+    | none =>
+      simp only
+      unfold decInt
+      split
+      · exact ⟨45, _, rfl, by decide⟩
+      · exact hdec _
+  · split
+    · split
+      · exact ⟨45, [49], rfl, by decide⟩
+      · exact hdec _
+    · split
+      · split
+        · obtain ⟨d, tl, hd, h1, h2⟩ := typeName_head v
+          exact ⟨d, tl, hd, by omega⟩
+        · exact hdec _
+      · split
+        · rename_i hp
+          have hpf : f = LA.Gen.RuleTables.permField := by simpa using hp
+          obtain ⟨h0, h16⟩ := hperm hpf
+          have cert : (List.range 16).all (fun bits => bits == 0 ||
+              (match permString bits with | c :: _ => c != 61 | [] => false)) = true := by decide +kernel
+          have := List.all_eq_true.mp cert v (List.mem_range.mpr h16)
+          have hv0 : (v == 0) = false := by simp; omega
+          simp only [hv0, Bool.false_or] at this
+          cases hps : permString v with
+          | nil => rw [hps] at this; cases this
+          | cons c tl => rw [hps] at this; exact ⟨c, tl, rfl, by simpa using this⟩
+        · exact hdec _
+
+/-- Per filter, the text half of the round trip: take any (field, value, operator) triple that
+Build computed for a numeric filter. The token ToCommandLine prints for it
+(`name ++ operator ++ printed value`) is split by the -F expression into the same three parts, the
+names look up the same field and operator codes, and addFilter on those parts — on any rule data
+under the same list — appends exactly the same triple. -/
+theorem C07_filter_reparse (env : Env) (he : EnvOk env) (r : RuleData) (f v opc : Nat) (lhs opS rhs0 : Bytes)
+    (a : Option Bytes)
+    (hlhs : revLookup LA.Gen.RuleTables.fieldsTable f = some lhs)
+    (hops : revLookup LA.Gen.RuleTables.operatorsTable opc = some opS)
+    (hs : stringFields.contains f = false) (harch : (f == LA.Gen.RuleTables.archField) = false)
+    (hbuilt : filterValue env r f opc rhs0 = some (v, none, a))
+    (hexcl : (r.flags == LA.Gen.RuleTables.excludeFilter && !(excludeOkFields.contains f)) = false)
+    (hperm : f = LA.Gen.RuleTables.permField → v ≠ 0) :
+    matchFilter (lhs ++ opS ++ fieldRhs f v) = some (lhs, opS, fieldRhs f v) ∧
+    addFilter env r lhs opS (fieldRhs f v) = some { r with trips := r.trips ++ [(f, v, opc)] } := by
+  have nd1 : (LA.Gen.RuleTables.fieldsTable.map (·.1)).Nodup := by decide +kernel
+  have nd2 : (LA.Gen.RuleTables.operatorsTable.map (·.1)).Nodup := by decide +kernel
+  have names_ok : LA.Gen.RuleTables.fieldsTable.all (fun p => !p.1.isEmpty && p.1.all isReWord) = true := by decide +kernel
+  have ops_ok : LA.Gen.RuleTables.operatorsTable.all (fun p => filterOps.contains p.1) = true := by decide +kernel
+  have hf := lookupB_of_revLookup nd1 hlhs
+  have ho := lookupB_of_revLookup nd2 hops
+  obtain ⟨p1, hp1, hp1v⟩ := lookupB_mem hf
+  -- the entry found by name is (lhs, f)
+  have hlhs_ok : lhs ≠ [] ∧ ∀ b ∈ lhs, isReWord b = true := by
+    unfold revLookup at hlhs
+    cases hfd : LA.Gen.RuleTables.fieldsTable.find? (fun p => p.2 == f) with
+    | none => rw [hfd] at hlhs; simp at hlhs
+    | some q =>
+      rw [hfd] at hlhs
+      simp only [Option.map_some, Option.some.injEq] at hlhs
+      have := List.all_eq_true.mp names_ok q (List.mem_of_find?_eq_some hfd)
+      simp only [Bool.and_eq_true, Bool.not_eq_true', List.all_eq_true] at this
+      rw [hlhs] at this
+      exact ⟨by intro h; simp [h] at this, this.2⟩
+  have hop_mem : opS ∈ filterOps := by
+    unfold revLookup at hops
+    cases hfd : LA.Gen.RuleTables.operatorsTable.find? (fun p => p.2 == opc) with
+    | none => rw [hfd] at hops; simp at hops
+    | some q =>
+      rw [hfd] at hops
+      simp only [Option.map_some, Option.some.injEq] at hops
+      have := List.all_eq_true.mp ops_ok q (List.mem_of_find?_eq_some hfd)
+      rw [hops] at this
+      simpa using this
+  have hperm' : f = LA.Gen.RuleTables.permField → 0 < v ∧ v < 16 := by
+    intro hpf
+    refine ⟨Nat.pos_of_ne_zero (hperm hpf), ?_⟩
+    -- the perm branch of filterValue
+    subst hpf
+    have c1 : uidFields.contains LA.Gen.RuleTables.permField = false := by decide +kernel
+    have c2 : gidFields.contains LA.Gen.RuleTables.permField = false := by decide +kernel
+    have c3 : (LA.Gen.RuleTables.permField == LA.Gen.RuleTables.exitField) = false := by decide +kernel
+    have c4 : (LA.Gen.RuleTables.permField == LA.Gen.RuleTables.msgTypeField) = false := by decide +kernel
+    have c5 : stringFields.contains LA.Gen.RuleTables.permField = false := by decide +kernel
+    have c6 : (LA.Gen.RuleTables.permField == LA.Gen.RuleTables.archField) = false := by decide +kernel
+    unfold filterValue at hbuilt
+    simp only [c1, c2, c3, c4, c5, c6, Bool.false_eq_true, if_false, beq_self_eq_true, if_true] at hbuilt
+    split at hbuilt
+    · simp at hbuilt
+    · split at hbuilt
+      · simp at hbuilt
+      · obtain ⟨hw, _⟩ := mapTriple hbuilt
+        exact getPerm_lt16 hw
+  obtain ⟨c, tl, hrhs, hc⟩ := fieldRhs_head f v hperm'
+  have hvr := C07_value_reparse env he r f opc rhs0 v a hs harch hbuilt
+  refine ⟨?_, ?_⟩
+  · rw [hrhs]; exact C07_filter_token_reparse lhs opS c tl hlhs_ok.1 hlhs_ok.2 hop_mem hc
+  · unfold addFilter
+    simp only [ho, hf, hexcl, Bool.false_eq_true, if_false, hvr, Option.map_some]
+
 /-- Wire round trip: the library's own decoder (fromWireFormat + fromAuditRuleData, the first half
 of ToCommandLine) inverts its encoder on everything rule.Build produces — list, action, every
 (field, value, operator) triple in order, every string, and the syscall set (as a set; listed
